@@ -664,3 +664,4 @@ def client_handler_task(name):
     (threaded client, asyncio client with a coroutine handler) or the asyncio client's wrapper
     coroutine around a plain function."""
     return name == 'handler' or name == 'async_handler'
+
